@@ -267,6 +267,48 @@ def check_units(ctx):
   ctx.floor("DSP-units", "length units", len(members), 6)
 
 
+def check_ruby_font_size(ctx):
+  """FIN-ruby: an unspecified font size is inherited unchanged, except that ruby text is half the
+  size of the base: rtc halves, and rt halves unless it sits in an rtc (which already did)."""
+  from ..oracles import content_model as cm
+  from ..rules import trav
+  ix = ctx.ix
+  f = ix.func("ttconv.isd:StyleProcessors.FontSize.inherit")
+  ctx.unit(f.module)
+  pname, ename = f.params[1], f.params[2]
+  halving = []
+  for n in own_nodes(f.node):
+    if isinstance(n, ast.If):
+      for c in ast.walk(ast.Module(body=n.body, type_ignores=[])):
+        if isinstance(c, ast.BinOp) and ((isinstance(c.op, ast.Div) and isinstance(c.right, ast.Constant) and c.right.value == 2) or
+                                         (isinstance(c.op, ast.Mult) and any(isinstance(x, ast.Constant) and x.value == 0.5 for x in (c.left, c.right)))):
+          halving.append(n)
+          break
+  if len(halving) != 1:
+    raise AnalysisError(f"{f.qualname}: expected exactly one branch that halves the parent's font size, found {len(halving)}")
+  g = halving[0]
+  other = [c for st in g.orelse for c in ast.walk(st) if isinstance(c, ast.BinOp) and isinstance(c.op, (ast.Div, ast.Mult))]
+  ctx.check(not other, "FIN-ruby", f"{f.qualname}|elements other than ruby text inherit the font size unchanged", ctx.where(f.module, g), "else branch passes the parent value on",
+            "the non-ruby branch scales the inherited font size")
+  base = ix.cls("ttconv.model:ContentElement")
+  concrete = [c for c in ix.all_subclasses(base) if c.module.name == "ttconv.model" and c.name in cm.ALLOWED_CHILDREN]
+  region = ix.cls("ttconv.isd:ISD.Region")
+
+  def oracle(**env):
+    e, p = env[ename], env.get(pname)
+    if p is not None and p is not region and e.name not in cm.ALLOWED_CHILDREN.get(p.name, ()):
+      return None
+    if p is region and e.name != "Body":
+      return None
+    if e.name == "Rtc":
+      return True
+    if e.name == "Rt":
+      return p is None or p.name != "Rtc"
+    return False
+  names = {ename: concrete, pname: concrete + [region]}
+  trav.check_type_guard(ctx, f, g.test, names, oracle, "FIN-ruby", f"{f.qualname}|ruby text is half the size of its base, once", ctx.where(f.module, g), "ruby font size default")
+
+
 def run(ctx):
   isdrules.check_style_order(ctx)
   n = isdrules.check_compute_order(ctx)
@@ -275,3 +317,5 @@ def run(ctx):
   na = isdrules.check_axes(ctx)
   ctx.floor("AXIS", "_compute_length call sites", na, 12)
   check_units(ctx)
+  check_ruby_font_size(ctx)
+  common.check_history_independence(ctx, common.CORE)
